@@ -151,19 +151,10 @@ class _AsyncSession:
 
 
 def loop_soap_client_async(net: Net):
-    from sdc11073.pysoap.soapclient_async import SoapClientAsync
-
-    class LoopSoapClientAsync(SoapClientAsync):
-        created: list = []
-
-        def __init__(self, *a, **k):
-            super().__init__(*a, **k)
-            LoopSoapClientAsync.created.append(self)
-
-        async def _mk_http_connection(self):
-            return _AsyncSession(net, self._netloc)
-    LoopSoapClientAsync.created = []
-    return LoopSoapClientAsync
+    """SoapClientAsync on a fake aiohttp session that behaves like aiohttp (auto_decompress, Content-Length, chunked=True, read()/headers)
+    - needed as soon as the async client stops using resp.text() / pre-chunked bodies (proposed fix scratch/c17_fix_1.diff)."""
+    from . import c17_aio
+    return c17_aio.loop_soap_client_async(net)
 
 
 class WsdStub:
